@@ -511,7 +511,7 @@ class C08(Prop):
     theorems = ["C08_rows_ok", "C08_layout_fields_ok", "C08_carrier_roundtrip", "C08_field", "C08_absent", "C08_value_roundtrip", "C08_bias_0_01", "C08_bias_0_02"]
     table_obligations = []
     rule = ("per df! row of the regenerated table: FDEC of patterns {0,1,2,3, all-ones, sign bit and neighbours, every one-hot, the invalid marker and its neighbours, random} "
-            "(thorough: every pattern of rows up to 16 bits), then FENC of each decoded value; non-trivial = distinct (row, pattern) pairs")
+            "(thorough: every pattern of rows up to 16 bits), then FENC of each decoded value; REDECODE of canonical 1059/1065/1230 frames with every boundary bias pattern (thorough: every pattern); non-trivial = distinct (row, pattern) pairs")
 
     def gen(self, ctx):
         rng = ctx.rng
@@ -787,7 +787,7 @@ class C10(Prop):
     table_obligations = ["msm_mask_offsets", "sig_tables_ok"]
     rule = ("ROUNDTRIP of MSM messages of all 49 types: admissible (S, G, C) with random permutations of the satellite and cell lists, up to 64 cells, and one generator per "
             "invalid class (satellite 0 / above 64, unrecognised signal, duplicate satellite, duplicate cell, satellite rows disagreeing with cell rows, more than 64 mask cells, "
-            "one list empty); masks recomputed independently from (S, G, C); non-trivial = distinct messages")
+            "one list empty); masks recomputed independently from (S, G, C); boundary shapes (64x1, 63x1, 32x2, 1 x every signal, as many satellites as fit with every signal); signal positions taken from the independent standard table; non-trivial = distinct messages")
 
     def gen(self, ctx):
         rng = ctx.rng
@@ -960,7 +960,7 @@ class C16(Prop):
                     "hypotheses) are covered by the ROUNDTRIP correspondence and the probes")
     table_obligations = ["ssr_tables_ok", "glo_order"]
     rule = ("ROUNDTRIP of 1059/1065/1230 messages: 0..64 satellites, 0..40 entries per satellite, entries of one satellite scattered, all recognised signals, totals around 390, "
-            "1230 lists in every order; DECODE of hostile frames with maximal per-satellite counts; non-trivial = distinct messages with at least two entries")
+            "1230 lists in every order; DECODE of hostile frames with maximal per-satellite counts; one satellite with 32..390 entries, exactly full lists (389/390 entries in four shapes), frames at and above the container capacity, every boundary bit pattern of the bias fields through canonical frames; non-trivial = distinct messages with at least two entries")
 
     def gen(self, ctx):
         rng = ctx.rng
@@ -1433,7 +1433,7 @@ class C02(Prop):
                 "C02_layouts_finite_ok", "C02_finite", "C02_message_finite"]
     rule = ("DECODE in both profiles on CRC-valid frames with hostile payloads for every supported number (random bytes of every length class, all-ones, zeros, MSM masks announcing "
             "0/65/2048 cells at payload lengths that do and do not cover the read, SSR lists with maximal counts, invalid UTF-8, truncated valid bodies, bit-flipped valid bodies) "
-            "and ITER on garbage; non-trivial = distinct frames that reach a typed decoder")
+            "and ITER on garbage; MSM grids with explicit cell masks (first / last cell only, all, alternating), canonical bias frames with boundary patterns, 1029 frames with valid text of every UTF-8 kind and plane; non-trivial = distinct frames that reach a typed decoder")
 
     def gen(self, ctx):
         rng = ctx.rng
@@ -1636,7 +1636,7 @@ class C01(Prop):
                     "Byte-for-byte equality of the re-encoded frame for values the encoder wraps or saturates and the MSM / SSR bias / 1230 / free-text layouts are covered by the correspondence and the ROUNDTRIP, ROUNDTRIPH and REDECODE probes only")
     rule = ("ROUNDTRIP (E m, D(E m), E(D(E m)), D(E(D(E m)))) on generated messages of all types: on-grid and off-grid reals, boundary and out-of-range integers, NaN/inf, "
             "absent/present optionals, every list length class, permuted MSM lists, duplicate keys, unrecognised bias signals, arbitrary text; REDECODE (D f, E(D f), D(E(D f))) on "
-            "CRC-valid frames with random payloads for every number; non-trivial = distinct operations whose first build / decode succeeds")
+            "CRC-valid frames with random payloads for every number; canonical bias frames (REDECODE), 1230 lists that repeat a signal, texts through both public constructors; non-trivial = distinct operations whose first build / decode succeeds")
 
     def gen(self, ctx):
         q = ctx.tier == "quick"
@@ -1792,7 +1792,7 @@ class C15(Prop):
     table_obligations = ["counts_fit", "layouts_fit"]
     rule = ("for every list-bearing message type of the regenerated layouts: ROUNDTRIP with n elements for n in {0,1,2,cap-1,cap} and random n (thorough: every n), the count field read back "
             "from the wire; DECODE of frames with every count value above the capacity patched in; DECODE of every truncation of a full-length frame (re-framed, valid CRC); "
-            "non-trivial = distinct operations on messages with at least one element")
+            "the same list type built five times on one builder (full, empty, one, half, full); the 1029 text at its byte and character capacities; lists of the smallest admissible elements; truncated frames followed by more bytes; non-trivial = distinct operations on messages with at least one element")
 
     def list_types(self, g):
         out = []
@@ -1980,7 +1980,7 @@ class C20(Prop):
     theorems = ["C20_88591", "C20_array_string"]
     partial_note = ("partial: the two hand-written serde impls are modelled and proved; the derived impls (serde_derive output) are exercised by the SERDE operations only")
     rule = ("SERDE on generated messages of all types (descriptor strings with high Latin-1 at capacity, text at 255 bytes, lists at capacity, absent optionals, no NaN) and SERDEFRAME "
-            "on decoded random frames: serialise into the harness's self-describing tree, deserialise, compare with ==; non-trivial = distinct messages")
+            "on decoded random frames: serialise into the harness's self-describing tree, deserialise, compare with ==; every signal of the three bias tables, extreme floats (largest / smallest finite, subnormal, zeros, infinities), texts with NUL characters; non-trivial = distinct messages")
 
     def gen(self, ctx):
         rng = ctx.rng
